@@ -21,7 +21,8 @@ import time
 
 ROOT = os.path.dirname(os.path.abspath(__file__))
 REPO = os.environ.get("VERIF_REPO", "/repo")
-BUILD = os.path.join(ROOT, "build")
+BUILD = os.environ.get("VERIF_BUILD", os.path.join(ROOT, "build"))
+OUTDIR = os.environ.get("VERIF_OUT", ROOT)  # evidence/ and replays/ go here (scratch runs against mutants use another place)
 NCPU = min(16, os.cpu_count() or 4)
 GUARD = "SPQLIOS_VERIF"
 
@@ -418,7 +419,7 @@ def main():
 
     known_open, _fixed = load_known()
     known = {(p, k): what for (p, k, what) in known_open}
-    os.makedirs(os.path.join(ROOT, "replays"), exist_ok=True)
+    os.makedirs(os.path.join(OUTDIR, "replays"), exist_ok=True)
     violations = {}   # key -> first witness
     inconclusive = []
     all_sums = []
@@ -458,7 +459,7 @@ def main():
             continue
         n_new += 1
         safe = re.sub(r"[^A-Za-z0-9_.=-]+", "_", key)[:100]
-        rpath = os.path.join(ROOT, "replays", f"{prop}-{safe}.json")
+        rpath = os.path.join(OUTDIR, "replays", f"{prop}-{safe}.json")
         run = w["run"]
         json.dump(dict(property=prop, key=key, cfg=run["cfg"], mode=run.get("mode", ""), tag=run.get("tag"),
                        defs=run.get("defs", ""), tier=run.get("tier", tier), seed=seed, idx=w["idx"],
@@ -500,8 +501,8 @@ def main():
     ev = dict(property_id=prop, tier=tier, seed=seed, level="exploration", coverage=cov,
               assumptions=P.get("assumptions", []), wall_s=round(time.time() - t0, 2),
               violations=n_new)
-    os.makedirs(os.path.join(ROOT, "evidence"), exist_ok=True)
-    json.dump(ev, open(os.path.join(ROOT, "evidence", f"{prop}.json"), "w"), indent=1)
+    os.makedirs(os.path.join(OUTDIR, "evidence"), exist_ok=True)
+    json.dump(ev, open(os.path.join(OUTDIR, "evidence", f"{prop}.json"), "w"), indent=1)
 
     if n_new:
         return 1
